@@ -63,6 +63,40 @@ WMC_STREAM = {
     ],
 }
 
+SDD_STREAM = {
+    "name": "sdd",
+    "quick": {"cases": 500, "args": ["--maxvars=6", "--maxops=30"]},
+    "thorough": {"cases": 15000, "args": ["--maxvars=8", "--maxops=50"]},
+    "shrink_levels": [
+        {"cases": 800, "args": ["--maxvars=2", "--maxops=6"]},
+        {"cases": 800, "args": ["--maxvars=3", "--maxops=8"]},
+        {"cases": 800, "args": ["--maxvars=4", "--maxops=12"]},
+        {"cases": 800, "args": ["--maxvars=5", "--maxops=20"]},
+    ],
+}
+
+ORD_STREAM = {
+    "name": "ord",
+    "quick": {"cases": 900, "args": ["--maxvars=6"]},
+    "thorough": {"cases": 30000, "args": ["--maxvars=9"]},
+    "shrink_levels": [
+        {"cases": 1500, "args": ["--maxvars=2"]},
+        {"cases": 1500, "args": ["--maxvars=3"]},
+        {"cases": 1500, "args": ["--maxvars=4"]},
+    ],
+}
+
+OPT_STREAM = {
+    "name": "opt",
+    "quick": {"cases": 250, "args": ["--maxvars=6", "--maxops=25"]},
+    "thorough": {"cases": 8000, "args": ["--maxvars=8", "--maxops=40"]},
+    "shrink_levels": [
+        {"cases": 600, "args": ["--maxvars=2", "--maxops=6"]},
+        {"cases": 600, "args": ["--maxvars=3", "--maxops=8"]},
+        {"cases": 600, "args": ["--maxvars=4", "--maxops=12"]},
+    ],
+}
+
 BDD_RULE = ("operation programs over RobddBuilder (random/linear/reversed orders, AllIteTable or LruIteTable with hooked "
             "capacity 2^0..2^3, hooked unique-table capacity 4..16 so the table grows repeatedly); a case is non-trivial when "
             "at least one result has a node whose child is a node; distinct = distinct program text")
@@ -162,5 +196,37 @@ PROPS = {
                       "and the number of models for unit weights (smooth_count); smoothH_orig_wrong is the negative theorem for the pinned helper.",
         "level_note": "Trusted: Lean kernel; allowed axioms; harness+driver.",
         "explanation": "C08.* theorems; wmc stream checks function, paths, counts and exact equality with the mirrored smooth.",
+    },
+    "C03": {
+        "modules": ["RsddModel.Props.C03"],
+        "streams": [SDD_STREAM],
+        "rule": "operation programs over CompressionSddBuilder: vtrees right-linear / left-linear / balanced / random splits over identity or shuffled "
+                "labels, compression on (3/4) and off (1/4), hooked unique-table capacity 4/8/default; non-trivial = a result has a decision node "
+                "below a decision node; distinct = distinct program text",
+        "trusted": ["modelled not verified: the two unique tables (C02's table), std HashMap apply cache (lawful cache parameter), segment tree behind lca (C14)"],
+        "assumptions": ["pointer identity = structural equality", "partial correctness (fuel-indexed mutual recursion and/canonicalize/compress/or)"],
+        "level_text": "Kernel-checked: for every vtree, both compression settings, every lawful apply and ite cache and every fuel, each SDD-builder "
+                      "operation returns a diagram denoting the specified function (and_correct, or_correct, condition_correct, ite_correct, "
+                      "exists_correct, compose_correct) and any operation sequence refines the specification pool (run_refines, run_stable); tied to "
+                      "the code by the sdd stream (canonical prints equal with compression on, truth tables otherwise).",
+        "level_note": "Trusted: Lean kernel; allowed axioms; harness+driver. Modelled: unique tables, HashMap caches, lca. Partial correctness.",
+        "explanation": "C03.* theorems; sdd stream: model == implementation (canonical form), implementation == spec truth tables.",
+    },
+    "C14": {
+        "modules": ["RsddModel.Props.C14"],
+        "streams": [ORD_STREAM],
+        "rule": "CNFs with unit/duplicate/tautological/empty clauses and unused indices -> linear, min-fill, FORCE orders and two run-time extensions; "
+                "explicit permutations through VarOrder::new; dtrees for random elimination orders with the derived vtree; vtrees from right_linear / "
+                "left_linear / even_split / random shapes with shuffled labels, all index pairs reachable through var_index and lca; non-trivial = "
+                "order differs from the identity / more than one clause / more than two leaves",
+        "trusted": ["modelled not verified: segment_tree (minimum over the half-open range), petgraph (swap-remove node indices, first minimum), f64 in FORCE (Lean Float for execution; the permutation theorem holds for any keys)"],
+        "assumptions": ["'every CNF variable' = every variable occurring in a clause", "force_order is not called on CNFs without clauses or with an empty clause (it diverges / underflows there)"],
+        "level_text": "Kernel-checked: every order the library produces is a permutation with mutually inverse maps (order_inverse, minfill_perm for any "
+                      "tie-breaking, force_perm for any keys, newLast_perm); dtree leaves = clauses, vars = union, cutsets by definition (dtree_leaves, "
+                      "dtree_vars, dtree_cutsets); the derived vtree has every occurring variable exactly once (vtree_of_dtree_leaves); in-order indices, "
+                      "lca = deepest common ancestor, prime relation and variable count follow the tree shape (inorder_index_spec, lca_correct, "
+                      "isPrime_spec, numVars_spec).",
+        "level_note": "Trusted: Lean kernel; allowed axioms; harness+driver. segment_tree and petgraph are modelled. VTreeIndex has no public constructor: pairs are those reachable via var_index and lca (all nodes).",
+        "explanation": "C14.* theorems; ord stream: implementation vs spec (set-theoretic definitions, root paths) and vs the mirrored model.",
     },
 }
